@@ -1,6 +1,7 @@
 import Driver.Parse
 import EchoVerif.Model.Codec.Cbor
 import EchoVerif.Model.Codec.Records
+import EchoVerif.Model.Codec.WalRecords
 
 namespace Driver.C12
 open EchoVerif EchoVerif.Cbor Driver
@@ -166,24 +167,132 @@ def showEnv (e : Envelope) : String :=
 def ingEnc : P String := do
   let e ← envelopeP
   done
-  if !strictlySorted e.2.1 then pure "unsorted" else
-  let b := ingressV2.enc e
-  match fromRetainedV2 b with
-  | some d => pure s!"ok {bytesTok b} rt {showEnv d}"
-  | none => pure s!"ok {bytesTok b} rt err"
+  -- the constructor canonicalises the parent set (sort + dedup), then writer, then reader
+  let env := mkEnvelope e
+  let b := toRetainedV2 env
+  match fromRetained b with
+  | some d => pure s!"ok {bytesTok b} canon {showEnv env} rt {showEnv d}"
+  | none => pure s!"ok {bytesTok b} canon {showEnv env} rt err"
 
 def ingDec : P String := do
   let b ← bytes
   let _ ← tok
-  if b.take 8 == ingressMagicV1 then pure "v1-legacy" else
-  match fromRetainedV2 b with
+  match fromRetained b with
   | none => pure "err"
-  | some e => pure ("ok " ++ showEnv e)
+  | some e => pure ("ok " ++ showEnv e ++ " re " ++ bytesTok (toRetainedV2 e))
+
+/-! ### WAL payload records -/
+
+def refOnly : P Ref := do
+  let wl ← bytes
+  let tick ← num
+  let gt ← num
+  let h1 ← bytes
+  let h2 ← bytes
+  let h3 ← bytes
+  let h4 ← bytes
+  pure (wl, tick, gt, h1, h2, h3, h4)
+
+def showRefOnly (r : Ref) : String :=
+  s!"{bytesTok r.1} {r.2.1} {r.2.2.1} {bytesTok r.2.2.2.1} {bytesTok r.2.2.2.2.1} {bytesTok r.2.2.2.2.2.1} {bytesTok r.2.2.2.2.2.2}"
+
+def optHash : P (Option Bytes) := do
+  let t ← tok
+  if t = "N" then pure none else if t = "S" then do let b ← bytes; pure (some b) else throw s!"bad option {t}"
+
+/-- a record of any kind: encoder output and a printer, or a decoder result printed -/
+inductive WalVal where
+  | acc (v : Acceptance) | env (v : SubmissionEnv) | tick (v : TickReceipt) | mat (v : Material)
+  | rref (v : ReadingRef) | cp (v : Checkpoint) | cpp (v : CheckpointPub) | corr (v : Correlation)
+
+def walValP (kind : String) : P WalVal := do
+  match kind with
+  | "acc" => do
+    let a ← bytes; let b ← bytes; let o ← optHash; let c ← bytes
+    pure (.acc (a, b, o, c))
+  | "env" => do
+    let a ← bytes; let b ← bytes; let g ← num; let wl ← bytes; let hd ← bytes; let r ← bytes
+    pure (.env (a, b, g, (wl, hd), r))
+  | "tick" => do
+    let r ← refOnly; let d ← num
+    pure (.tick (r, d))
+  | "mat" => do
+    let a ← bytes; let b ← bytes; let k ← num; let p ← num
+    pure (.mat (a, b, k, p))
+  | "rref" => do
+    let a ← bytes; let b ← bytes; let c ← bytes; let d ← bytes; let p ← num
+    pure (.rref (a, b, c, d, p))
+  | "cp" => do
+    let a ← bytes; let l ← num; let b ← bytes; let c ← bytes; let d ← bytes; let e ← bytes
+    let v ← num; let f ← bytes
+    pure (.cp (a, l, b, c, d, e, v, f))
+  | "cpp" => do
+    let a ← bytes; let b ← bytes
+    pure (.cpp (a, b))
+  | "corr" => do
+    let r ← refOnly; let ps ← counted refOnly
+    pure (.corr (r, ps))
+  | o => throw s!"bad record kind {o}"
+
+def showOpt : Option Bytes → String
+  | none => "N"
+  | some b => "S " ++ bytesTok b
+
+def WalVal.show : WalVal → String
+  | .acc (a, b, o, c) => s!"acc {bytesTok a} {bytesTok b} {showOpt o} {bytesTok c}"
+  | .env (a, b, g, (wl, hd), r) => s!"env {bytesTok a} {bytesTok b} {g} {bytesTok wl} {bytesTok hd} {bytesTok r}"
+  | .tick (r, d) => s!"tick {showRefOnly r} {d}"
+  | .mat (a, b, k, p) => s!"mat {bytesTok a} {bytesTok b} {k} {p}"
+  | .rref (a, b, c, d, p) => s!"rref {bytesTok a} {bytesTok b} {bytesTok c} {bytesTok d} {p}"
+  | .cp (a, l, b, c, d, e, v, f) =>
+    s!"cp {bytesTok a} {l} {bytesTok b} {bytesTok c} {bytesTok d} {bytesTok e} {v} {bytesTok f}"
+  | .cpp (a, b) => s!"cpp {bytesTok a} {bytesTok b}"
+  | .corr (r, ps) => s!"corr {showRefOnly r} {ps.length}" ++ String.join (ps.map (fun p => " " ++ showRefOnly p))
+
+def WalVal.enc : WalVal → Bytes
+  | .acc v => acceptanceRec.enc v
+  | .env v => submissionEnvRec.enc v
+  | .tick v => tickReceiptRec.enc v
+  | .mat v => materialRec.enc v
+  | .rref v => readingRefRec.enc v
+  | .cp v => checkpointRec.enc v
+  | .cpp v => checkpointPubRec.enc v
+  | .corr v => correlationEnc v
+
+def walDec (kind : String) (b : Bytes) : Option WalVal :=
+  match kind with
+  | "acc" => (decodeAll acceptanceRec b).map .acc
+  | "env" => (decodeAll submissionEnvRec b).map .env
+  | "tick" => (decodeAll tickReceiptRec b).map .tick
+  | "mat" => (decodeAll materialRec b).map .mat
+  | "rref" => (decodeAll readingRefRec b).map .rref
+  | "cp" => (decodeAll checkpointRec b).map .cp
+  | "cpp" => (decodeAll checkpointPubRec b).map .cpp
+  | "corr" => (correlationDec b).map .corr
+  | _ => none
+
+def walEnc : P String := do
+  let kind ← tok
+  let v ← walValP kind
+  done
+  let b := v.enc
+  match walDec kind b with
+  | some d => pure s!"ok {bytesTok b} rt {d.show}"
+  | none => pure s!"ok {bytesTok b} rt err"
+
+def walDecH : P String := do
+  let kind ← tok
+  let b ← bytes
+  let _ ← tok
+  match walDec kind b with
+  | none => pure "err"
+  | some v => pure s!"ok {v.show} re {bytesTok v.enc}"
 
 def handlers : List (String × (List String → String)) :=
   [("C12.abi.enc", runP abiEnc), ("C12.abi.dec", runP abiDec),
    ("C12.eint.enc", runP eintEnc), ("C12.eint.dec", runP eintDec),
    ("C12.elog.enc", runP elogEnc), ("C12.elog.dec", runP elogDec),
-   ("C12.ingress.enc", runP ingEnc), ("C12.ingress.dec", runP ingDec)]
+   ("C12.ingress.enc", runP ingEnc), ("C12.ingress.dec", runP ingDec),
+   ("C12.walrec.enc", runP walEnc), ("C12.walrec.dec", runP walDecH)]
 
 end Driver.C12
